@@ -167,7 +167,15 @@ def w_nodata_resolution(w, cfg):
             w.discharge(f"{tag}.kernel_receives_a_nodata_value", facts, z3.BoolVal(False), guard=c["guard"], concretize=conc)
             continue
         seen = True
-        w.discharge(f"{tag}.kernel_receives_the_resolved_value", facts, V.to_real(V.num_of_bool(got)) == z3.ToReal(want), guard=c["guard"],
+
+        def eq_want(v):
+            from pysym.interp import Choice
+            if isinstance(v, Choice):
+                return z3.If(V.to_z3(v.cond), eq_want(v.a), eq_want(v.b))
+            if v is None:
+                return z3.BoolVal(False)
+            return V.to_real(V.num_of_bool(v)) == z3.ToReal(want)
+        w.discharge(f"{tag}.kernel_receives_the_resolved_value", facts, eq_want(got), guard=c["guard"],
                     concretize=conc, sample=True)
     w.discharge(f"{tag}.kernel_called", facts, z3.BoolVal(seen), concretize=conc)
 
